@@ -1,6 +1,7 @@
 package main
 
 import (
+	"testing/iotest"
 	"encoding/binary"
 	"bufio"
 	"bytes"
@@ -124,6 +125,12 @@ func genLoadOption(rng *rand.Rand) refdev.LoadOption {
 				nd.Start, nd.Size = uint64(rng.Intn(1<<22)), uint64(rng.Intn(1<<24))
 			}
 			rng.Read(nd.Sig[:])
+			switch rng.Intn(8) {
+			case 0: // a signature of all zeros (a disk that was never given one)
+				nd.Sig = [16]byte{}
+			case 1:
+				nd.Sig = [16]byte{byte(1 + rng.Intn(255))}
+			}
 			if rng.Intn(2) == 0 {
 				nd.PartFormat, nd.SigType = 2, 2
 				if rng.Intn(4) == 0 { // leading zeros in GUID fields
@@ -418,9 +425,11 @@ func checkC18(r *mon.Run) {
 			pathBytes = append(pathBytes, n.Encode()...)
 		}
 		pathBytes = append(pathBytes, refdev.Node{Kind: "end"}.Encode()...)
-		for _, rk := range []string{"bytes.Reader", "plain-reader", "bufio"} {
+		for _, rk := range []string{"bytes.Reader", "plain-reader", "bufio", "data-with-EOF"} {
 			var src io.Reader = bytes.NewReader(pathBytes)
 			switch rk {
+			case "data-with-EOF": // the last bytes arrive together with io.EOF (legal for an io.Reader)
+				src = iotest.DataErrReader(bytes.NewReader(pathBytes))
 			case "plain-reader":
 				src = &pullCounter{r: bytes.NewReader(pathBytes)}
 			case "bufio":
